@@ -15,7 +15,9 @@ import NucsProofs.Examples.Counts
   Hence the partial-correctness theorems of enumeration and optimisation (C02/C03, generic in the consistency
   algorithm) hold for the Golomb example RUN WITH ITS OWN ALGORITHM: `C20_golomb_own_enumeration`,
   `C20_golomb_own_optimum`.  (Termination/`ConsTerm` is not claimed: it needs "the scan for unused distances never
-  leaves its array", a counting fact about Golomb rulers that is validated, not proved.)
+  leaves its array", which is NOT a counting fact: `golomb_scan_bound_needs_reachability` below exhibits a box of non-empty
+  domains for 6 marks on which the scan runs off the array — it holds only on the states a search reaches, where the scanned
+  distances beyond the first open mark are open or too large to be marked; validated on whole runs, not proved.)
 -/
 namespace Nucs
 open Ex
@@ -227,5 +229,23 @@ theorem C20_golomb_own_enumeration_ready (n : Nat) (hn : 2 ≤ n) (sb : Bool) (h
 example : Counts.ProblemReady (golombProblem 4 true) ∧ Counts.ProblemReady (golombProblem 5 true) ∧
     Counts.ProblemReady (golombProblem 6 true) ∧ Counts.ProblemReady (golombProblem 7 true) := by
   refine ⟨?_, ?_, ?_, ?_⟩ <;> decide +kernel
+
+/-- the box for 6 marks (variables `d01 d02 d03 d04 d05 | d12 d13 d14 d15 | d23 d24 d25 | d34 d35 | d45`): the first four marks
+    and every scanned inner distance instantiated to nine distinct values below 11 (not a partial ruler: unreachable) -/
+def golombOffArrayBox : Box :=
+  [(1,1),(2,2),(3,3),(4,4),(20,40), (5,5),(6,6),(7,7),(8,8), (9,9),(1,40),(1,40), (1,40),(1,40), (1,40)]
+
+/-- The code's comment "there will be at least n-2 unused numbers" is not a consequence of the sizes alone: on this box of
+    non-empty domains (first open decision variable 4, ten variables scanned against ten slots, nine of them marked) the scan
+    for the second unused distance leaves `used_distance` — `IndexError` in the interpreted code (harness/golomb_corr.py runs the
+    code on the states of this family), `.error .oob` in the model.  `ConsTerm`/`Safe` for `ConsAlg.golomb` therefore need an
+    invariant of REACHABLE states and are not claimed. -/
+theorem golomb_scan_bound_needs_reachability :
+    (match golombPruneN (golombProblem 6) 6 (List.range 5)
+        { (State.init (golombProblem 6)) with
+            top := { doms := golombOffArrayBox, ne := List.replicate (golombProblem 6).props.length true } } with
+     | .error .oob => true
+     | _ => false) = true ∧ golombOffArrayBox.all (fun d => decide (d.1 ≤ d.2)) = true := by
+  constructor <;> decide +kernel
 
 end Nucs
